@@ -284,7 +284,7 @@ def prop_value(b, pid, lens, owner, pvar, idx):
             b.con("%s <= 1" % v, key + ".range", ("InvalidByteProperty", name, v))
             b.chk("%s.%s == Some(if %s == 0 { mp::QoS::Level0 } else { mp::QoS::Level1 })" % (pvar, fld, v), key)
             return (fld, "Some(if %s == 0 { mp::QoS::Level0 } else { mp::QoS::Level1 })" % v), 2
-        b.con("%s <= 1" % v, key + ".range", ("InvalidByteProperty", name, v))
+        b.con("true" if v in ("0u8", "1u8") else "%s <= 1" % v, key + ".range", ("InvalidByteProperty", name, v))
         b.chk("%s.%s == Some(%s == 1)" % (pvar, fld, v), key)
         return (fld, "Some(%s == 1)" % v), 2
     if wt == "u16":
@@ -347,40 +347,82 @@ def prop_wire_len(pid, lens):
         return 5 + lens[0] + lens[1]
 
 
-def props(b, owner, plist, pvar):
+def props(b, owner, plist, pvar, len_delta=0):
     """property list `plist` = [(id, lens)] in wire order for `owner`; returns ctor expr.
-    Constraint side: ids not allowed for the owner / duplicates are *shape-level* malformations
-    (the id sequence is concrete), recorded as constant-false constraints."""
-    total = sum(prop_wire_len(pid, l) for pid, l in plist)
-    for d in varint_bytes(total):
+    Constraint side: ids not allowed for the owner / unknown ids / duplicates are *shape-level*
+    malformations (the id sequence is concrete), recorded as constant-false constraints.
+    ('raw', id) = an identifier that is not in Table 2-4 followed by one arbitrary byte.
+    len_delta: the declared Property Length is (true length + len_delta)."""
+    total = sum(2 if pid == "raw" else prop_wire_len(pid, l) for pid, l in plist)
+    declared = total + len_delta
+    for d in varint_bytes(declared):
         b.put(d)
+    if len_delta < 0:
+        # the last property runs past the declared length: InvalidPropertyLength(declared)
+        b.con("false", "prop.length", ("InvalidPropertyLength", str(declared)))
+    elif len_delta > 0:
+        # the list claims more bytes than the frame holds (callers use this where nothing follows the
+        # list): the strict decoder reports the frame-level length error
+        b.con("false", "prop.length", ("InvalidRemainingLength",))
     assigns = {}
     users = []
     seen = set()
     nuser = 0
+    stop = False
     for pid, l in plist:
+        if pid == "raw":
+            b.put(l)
+            x = b.u8("px")
+            b.put(x)
+            if not stop:
+                b.con("false", "prop.unknown_id", ("InvalidPropertyId", "0x%02x" % l))
+            stop = True
+            continue
         name = PROPS[pid][0]
+        if stop:
+            # bytes after the first shape-level malformation only have to be there
+            nb = B(b.fam)
+            prop_value(nb, pid, l, owner, pvar, nuser)
+            b.draws += nb.draws
+            b.cells += nb.cells
+            b.assumes += nb.assumes
+            b.wbytes += nb.wbytes
+            b.nv += 100
+            continue
         if pid not in ALLOWED[owner]:
             b.con("false", "prop.%s.not_allowed" % name, ("InvalidProperty", owner, name))
+            stop = True
         elif pid in seen and pid != 0x26:
             b.con("false", "prop.%s.duplicate" % name, ("DuplicatedProperty", name))
+            stop = True
         seen.add(pid)
+        if stop:
+            nb = B(b.fam)
+            nb.nv = b.nv + 50
+            prop_value(nb, pid, l, owner, pvar, nuser)
+            b.draws += nb.draws
+            b.cells += nb.cells
+            b.assumes += nb.assumes
+            b.wbytes += nb.wbytes
+            b.nv = nb.nv + 50
+            continue
         (fld, val), _ = prop_value(b, pid, l, owner, pvar, nuser)
         if fld == "user":
             users.append(val)
             nuser += 1
         else:
             assigns.setdefault(fld, val)
-    b.chk("%s.user_properties.len() == %d" % (pvar, nuser), "prop.user.count")
-    # absent properties are None
-    for pid in ALLOWED[owner]:
-        if pid != 0x26 and pid not in seen:
-            b.chk("%s.%s.is_none()" % (pvar, PROP_FIELD[pid]), "prop.%s.absent" % PROPS[pid][0])
+    if not stop:
+        b.chk("%s.user_properties.len() == %d" % (pvar, nuser), "prop.user.count")
+        # absent properties are None
+        for pid in ALLOWED[owner]:
+            if pid != 0x26 and pid not in seen:
+                b.chk("%s.%s.is_none()" % (pvar, PROP_FIELD[pid]), "prop.%s.absent" % PROPS[pid][0])
     st = PROPS_STRUCT[owner]
     fields = ", ".join("%s: %s" % kv for kv in assigns.items())
     ctor = "mp::v5::%s { %s%suser_properties: vec![%s], ..Default::default() }" % (
         st, fields, ", " if fields else "", ", ".join(users))
-    return ctor, len(varint_bytes(total)) + total
+    return ctor, len(varint_bytes(declared)) + total
 
 
 # ---------------------------------------------------------------------------------------
@@ -388,12 +430,18 @@ def props(b, owner, plist, pvar):
 # ---------------------------------------------------------------------------------------
 
 class Shape:
+    """canonical: the encoder emits exactly this spelling for the value `ctor` builds"""
+
     def __init__(self, fam, typ, name, ctrl, b, variant, ctor, canonical=True, note=""):
         self.fam, self.typ, self.name, self.ctrl, self.b = fam, typ, name, ctrl, b
         self.variant = variant      # rust pattern binding `p`
         self.ctor = ctor            # rust expr of type mp::<fam>::Packet (None: not constructible, e.g. malformed ids)
         self.canonical = canonical  # the encoder emits exactly this spelling
         self.note = note
+
+    @property
+    def malformed_by_shape(self):
+        return any(c[0] == "false" for c in self.b.cons)
 
     @property
     def body_len(self):
@@ -654,6 +702,9 @@ def pl_name(plist):
         return ""
     out = []
     for pid, l in plist:
+        if pid == "raw":
+            out.append("raw%02x" % l)
+            continue
         s = "%02x" % pid
         if isinstance(l, tuple):
             s += "l%d_%d" % l
@@ -679,16 +730,16 @@ def _reason(b, typ, key, layout_zero=None):
     return rc
 
 
-def v5_connack(plist=()):
+def v5_connack(plist=(), pd=0):
     b = B("v5")
     f = b.u8("sp")
     b.put(f)
     b.con("%s <= 1" % f, "connack.flags", ("InvalidConnackFlags", f))
     rc = _reason(b, "Connack", "connack")
-    pctor, _ = props(b, "Connack", list(plist), "p.properties")
+    pctor, _ = props(b, "Connack", list(plist), "p.properties", pd)
     b.chk("p.session_present == (%s == 1)" % f, "connack.session_present")
     ctor = "mp::v5::Packet::Connack(mp::v5::Connack { session_present: %s == 1, reason_code: mp::v5::ConnectReasonCode::from_u8(%s).unwrap(), properties: %s })" % (f, rc, pctor)
-    return Shape("v5", "Connack", "connack" + pl_name(plist), 0x20, b, "mp::v5::Packet::Connack(p)", ctor)
+    return Shape("v5", "Connack", "connack" + pl_name(plist) + ("_pd%+d" % pd if pd else "").replace("+", "p").replace("-", "m"), 0x20, b, "mp::v5::Packet::Connack(p)", ctor)
 
 
 def v5_publish(qos=0, tl=1, pl=1, plist=(), dup=False, retain=False):
@@ -713,7 +764,7 @@ def v5_publish(qos=0, tl=1, pl=1, plist=(), dup=False, retain=False):
     return Shape("v5", "Publish", name, ctrl, b, "mp::v5::Packet::Publish(p)", ctor)
 
 
-def v5_ack(typ, form="short", plist=(), zero=None):
+def v5_ack(typ, form="short", plist=(), zero=None, pd=0):
     """PUBACK/PUBREC/PUBREL/PUBCOMP. form: short (pid) | medium (pid, reason) | long (pid, reason, props)"""
     b = B("v5")
     pid = _pid(b, typ.lower() + ".pid")
@@ -731,11 +782,11 @@ def v5_ack(typ, form="short", plist=(), zero=None):
         canonical = zero is False
     else:
         rc = _reason(b, typ, typ.lower(), zero)
-        pctor, _ = props(b, typ, list(plist), "p.properties")
+        pctor, _ = props(b, typ, list(plist), "p.properties", pd)
         ctor = "mp::v5::Packet::%s(mp::v5::%s { pid: mp::Pid::try_from(%s).unwrap(), reason_code: mp::v5::%s::from_u8(%s).unwrap(), properties: %s })" % (typ, typ, pid, REASON_ENUM[typ], rc, pctor)
         canonical = len(plist) > 0
     ctrl = (TYPE_NIBBLE[typ] << 4) | FIXED_FLAGS.get(typ, 0)
-    name = "%s_%s%s%s" % (typ.lower(), form, {None: "", True: "_rc0", False: "_rcnz"}[zero], pl_name(plist))
+    name = "%s_%s%s%s%s" % (typ.lower(), form, {None: "", True: "_rc0", False: "_rcnz"}[zero], pl_name(plist), ("_pd%+d" % pd if pd else "").replace("+", "p").replace("-", "m"))
     return Shape("v5", typ, name, ctrl, b, "mp::v5::Packet::%s(p)" % typ, ctor, canonical)
 
 
@@ -885,6 +936,8 @@ def err_pat(fam, err):
         return "mp::v5::ErrorV5::InvalidByteProperty(mp::v5::PropertyId::%s, x) if *x == %s" % (err[1], err[2])
     if k == "InvalidSubscriptionOption":
         return "mp::v5::ErrorV5::InvalidSubscriptionOption(x) if *x == %s" % err[1]
+    if k == "InvalidPropertyId":
+        return "mp::v5::ErrorV5::InvalidPropertyId(x) if *x == %s" % err[1]
     if k in ("InvalidPayloadFormat", "InvalidResponseTopic"):
         return "mp::v5::ErrorV5::%s" % k
     if k == "InvalidPropertyLength":
@@ -920,20 +973,30 @@ class Module:
         self.entries.append((attrs, fn_name, max(wsize, 1), "f_" + fn_name))
         self.meta.append(meta or {"name": fn_name})
 
-    def write(self, srcdir):
+    def write(self, srcdir, chunk=12):
+        """split into sub-modules of at most `chunk` harnesses (name_00, name_01, ...): Kani's code
+        generation is sequential per crate build (~2.4 s per harness), so the driver builds the
+        sub-modules in parallel cargo invocations"""
         import os
-        out = ["//! %s\n//! GENERATED by tools/mqttgen.py on every run -- do not edit.\n" % self.doc,
-               "#![allow(unused_variables, unused_mut, unused_parens, non_snake_case)]",
-               "use crate::gh::*;", "use crate::fe;", ""]
-        out += self.fns
-        out.append("scenarios! {")
-        for attrs, hn, w, fn in self.entries:
-            for a in attrs:
-                out.append("    " + a)
-            out.append("    %s [%d] => %s;" % (hn, w, fn))
-        out.append("}")
-        with open(os.path.join(srcdir, self.name + ".rs"), "w") as f:
-            f.write("\n".join(out) + "\n")
+        n = 0
+        for k in range(0, len(self.entries), chunk):
+            name = "%s_%02d" % (self.name, n)
+            n += 1
+            out = ["//! %s\n//! GENERATED by tools/mqttgen.py on every run -- do not edit.\n" % self.doc,
+                   "#![allow(unused_variables, unused_mut, unused_parens, non_snake_case)]",
+                   "use crate::gh::*;", "use crate::fe;", ""]
+            out += self.fns[k:k + chunk]
+            out.append("scenarios! {")
+            for attrs, hn, w, fn in self.entries[k:k + chunk]:
+                for a in attrs:
+                    out.append("    " + a)
+                out.append("    %s [%d] => %s;" % (hn, w, fn))
+            out.append("}")
+            with open(os.path.join(srcdir, name + ".rs"), "w") as f:
+                f.write("\n".join(out) + "\n")
+        import json
+        with open(os.path.join(srcdir, self.name + ".meta.json"), "w") as f:
+            json.dump(self.meta, f)
 
 
 def frame_decl(sh, var="frame"):
@@ -975,10 +1038,11 @@ def emit_dec(sh, prop="C04", bad=None, frontend="poll", extra_checks=True):
 
     def can_fail(i):
         expr, key, err, kind, region = b.cons[i]
+        nfalse = sum(1 for c in b.cons if c[0] == "false")
         if kind == "scalar":
-            return bad is None
+            return bad is None and nfalse == 0
         if kind == "const":
-            return expr == "false" and bad is None
+            return expr == "false" and bad is None and nfalse == 1
         return bad is not None and bad[0] == kind and bad[1] < len(regions[kind]) and regions[kind][bad[1]] == region
     for i, (expr, key, err, kind, region) in enumerate(b.cons):
         lines.append("    let c%d: bool = %s;" % (i, expr))
